@@ -145,7 +145,9 @@ func getNodeFieldsBytesSize(node *insaneJSON.Node) int {
 		elemNodeVal := elemNode.AsFieldValue()
 		size += getNodeBytesSize(elemNodeVal)
 	}
-	size += len(fields) - 1 // commas between object fields
+	if len(fields) > 0 {
+		size += len(fields) - 1 // commas between object fields
+	}
 	return size
 }
 
@@ -160,7 +162,10 @@ func getNodeBytesSize(node *insaneJSON.Node) int {
 		for _, elemNode := range nodeArr {
 			size += getNodeBytesSize(elemNode)
 		}
-		size += len(nodeArr) - 1 + 2 // commas between elements and square brackets enclosing array
+		if len(nodeArr) > 0 {
+			size += len(nodeArr) - 1 // commas between elements
+		}
+		size += 2 // square brackets enclosing array
 	case node.IsObject():
 		size += getNodeFieldsBytesSize(node) + 2 // curly brackets enclosing object
 	default:
